@@ -36,6 +36,26 @@ def run(prop, tier, replay=None):
         for i, v in enumerate(vectors):
             v["id"] = i + 1
             v["seed"] = s
+        # probes beyond the bound: long outputs with multi-line runs (line numbers with more digits than expectations)
+        import random
+        rnd = random.Random(s * 7919 + 3)
+        nprobe = 300 if tier == "quick" else 3000
+        for j in range(nprobe):
+            n = rnd.randint(1, 4)
+            m = rnd.randint(8, 14)
+            q = [rnd.choice(["1", "?", "*", "+", "+", "*"]) for _ in range(n)]
+            M = []
+            cut = sorted(rnd.sample(range(1, m + 1), min(n, m)))
+            for kk in range(n):
+                if q[kk] in "*+" and rnd.random() < 0.8:
+                    lo = cut[kk] if kk < len(cut) else m
+                    hi = min(m, lo + rnd.randint(3, 11))
+                    row = [l for l in range(lo, hi + 1) if rnd.random() < 0.95]
+                else:
+                    row = [l for l in range(1, m + 1) if rnd.random() < 0.12]
+                M.append(sorted(set(row)))
+            vectors.append({"id": len(vectors) + 1, "seed": s, "n": n, "m": m, "q": q, "M": M, "out": [], "hunks": [], "probe": True})
+        cov["probes_beyond_bound"] = nprobe
         states, trans = res.distinct, res.generated
         cov["mc_action_counts"] = {a: res.actions[a][1] for a in ACTIONS}
         cov["diff_shapes"] = len({json.dumps(v["out"]) for v in vectors})
